@@ -228,7 +228,7 @@ def run(ctx):
     ]
     ctx.proof(props=["Molli.Props.C18"], gen=[])
     corpus = [c for c in load_corpus() if c.get("section") == "history"]
-    n = 16 if ctx.quick() else 120
+    n = 12 if ctx.quick() else 120
     scens = corpus + [gen_history(ctx.rng, ctx.quick()) for _ in range(n)]
     workers = 6 if ctx.quick() else 8
     results = [None] * len(scens)
